@@ -636,6 +636,13 @@ class FlowMixin:
                     st.assume(z3.Implies(ov, nv))
                 elif when is None:
                     st.assume(nv == ov)
+                elif " " in when or "(" in when or "." in when:
+                    # general condition over `self` in the state before the suspension
+                    fr2 = Frame(self.cur_func, None, spec=True)
+                    fr2.locals = {"self": Val(REF(oc), o), "me": Val(ANY, self.me_const)}
+                    s_old = st.copy()
+                    s_old.heap_override = pre
+                    st.assume(z3.Implies(self.eval_clause(when, s_old, frame=fr2), nv == ov))
                 else:
                     conds = []
                     for wf in when.split("|"):
